@@ -492,6 +492,36 @@ func (c *Ctx) rwHeaderTypestate(w *Wrapper) {
 				c.Fail("deferred-status-delivered", w.Key+"."+m, p.Pos(w.Methods[m].Pos()), firstLine(bad[0]), bad...)
 			}
 		}
+		// the status recorded is the most recent one written while the header is still unsent
+		// (an informational 1xx is followed by the final status)
+		if wh, ok := f.traces["WriteHeader"]; ok {
+			var bad []string
+			for _, t := range wh {
+				sent := false
+				for e := range f.Excusers {
+					if c.flagTrueByTest(w, t, e, len(t.Items)) {
+						sent = true
+					}
+				}
+				if sent {
+					continue
+				}
+				rec := false
+				for _, it := range t.Items {
+					if strings.HasPrefix(it.Label, "store statusCode := param:") {
+						rec = true
+					}
+				}
+				if !rec {
+					bad = append(bad, "a status written while the header is still unsent is dropped (a 1xx followed by the final status leaves the wrong one recorded and the client gets 200)  on path: "+t.String())
+				}
+			}
+			if len(bad) == 0 {
+				c.Pass("deferred-status-last-wins", w.Key+".WriteHeader", p.Pos(w.Methods["WriteHeader"].Pos()), "every call made before the header went out records its status")
+			} else {
+				c.Fail("deferred-status-last-wins", w.Key+".WriteHeader", p.Pos(w.Methods["WriteHeader"].Pos()), firstLine(bad[0]), bad...)
+			}
+		}
 		// the status sent is the recorded one
 		for name, ts := range f.traces {
 			for _, t := range ts {
@@ -503,6 +533,27 @@ func (c *Ctx) rwHeaderTypestate(w *Wrapper) {
 						}
 					}
 				}
+			}
+		}
+	}
+	if f.Forwarding {
+		if wh, ok := f.traces["WriteHeader"]; ok {
+			var bad []string
+			for _, t := range wh {
+				has := false
+				for _, it := range t.Items {
+					if strings.HasPrefix(it.Label, "emb:WriteHeader(param:") {
+						has = true
+					}
+				}
+				if !has {
+					bad = append(bad, "a WriteHeader call is not forwarded with the caller's status (after an informational 1xx the final status is swallowed and the client gets an implicit 200)  on path: "+t.String())
+				}
+			}
+			if len(bad) == 0 {
+				c.Pass("forwarding-every-status", w.Key+".WriteHeader", p.Pos(w.Methods["WriteHeader"].Pos()), "every WriteHeader call reaches the embedded writer with the caller's status")
+			} else {
+				c.Fail("forwarding-every-status", w.Key+".WriteHeader", p.Pos(w.Methods["WriteHeader"].Pos()), firstLine(bad[0]), bad...)
 			}
 		}
 	}
